@@ -2,7 +2,7 @@
 # yields exactly the values wholly contained in the prefix, then End.
 import common, cborgen, schema, histgen, refcbor
 THEOREMS = ["C05_refine", "C05_init", "C05_exhausted", "C05_prefix", "C05_suffix", "C05_truncated_file", "C05_truncated_outputs_of_histories", "C05_nonvacuous"]
-EXTRA_PROPERTY_FILES = ("Properties_format", "Properties_decoder")   # obligations over the regenerated Gen_format.v (translator/format.py)
+EXTRA_PROPERTY_FILES = ("Properties_format", "Properties_decoder", "Properties_tools")   # obligations over the regenerated Gen_format.v (translator/format.py)
 W = 65535
 OPS = ["D pk", "D u", "D n", "D i", "D b", "D bs", "D ts", "D as", "D ms", "D br", "D sk"]
 
